@@ -3,7 +3,7 @@
    Print Assumptions.  [lin g i ss] is the sum of column i over the samples selected by g; with
    g = "entry e is the leaf" / "entry e is on the stack" it is the flat / cum number of entry e. *)
 From Coq Require Import QArith.
-From PV Require Import M_Combine S_Measure S_Combine L_Combine Gen.Gen_UnitTable.
+From PV Require Import M_Combine S_Measure L_Measure S_Combine L_Combine Gen.Gen_UnitTable.
 Open Scope Z_scope.
 
 (* -- the numbers a -top report prints are the entry-level sums, in int64 -- *)
@@ -105,6 +105,50 @@ Theorem compat_aligns_columns : forall st p p',
                    /\ nth j (p_sampletype p') dummy_vt = nth i (p_sampletype p) dummy_vt.
 Proof. exact compat_aligns_lemma. Qed.
 Print Assumptions compat_aligns_columns.
+
+(* -- statements kept in full but NOT proved here (fallback ladder of DESIGN 5.22): each is covered on
+      every run by the correspondence of the executable model with the implementation and by the
+      evaluated specification checker S_Combine.spec_ok; the theorems above are their proved parts -- *)
+Definition sum_lin (g : sample -> bool) (i : nat) (ps : list profile) : Z :=
+  fold_right (fun p acc => lin g i (p_sample p) + acc) 0 ps.
+
+(* end to end through fetchProfiles for tuples with one common sample-type list: proved parts are
+   compat_aligns_columns, unit_harmonise_exact, scale_n_keeps_nonzero, report_additive, negation_exact and
+   diff_is_subtraction; missing: that CompatibilizeSampleTypes and ScaleProfiles are the identity on
+   such tuples (needs the counting argument of commonSampleTypes and Scale(1,u,u) = 1) *)
+Definition full_statement_fetch_linear : Prop :=
+  forall uts db srcs bases r g i,
+    L_Measure.table_ok uts = true ->
+    fetch keep_written uts db false srcs bases = Ok r ->
+    (forall p, In p (srcs ++ bases) -> wf_profile p) ->
+    (forall p q, In p (srcs ++ bases) -> In q (srcs ++ bases) ->
+                 p_sampletype p = p_sampletype q /\ p_periodtype p = p_periodtype q) ->
+    (forall p v, In p (srcs ++ bases) -> In v (p_sampletype p) -> is_auto (vt_unit v) = false) ->
+    respects_key g -> (forall s l, g (set_label_of s l) = g s) ->
+    eq64 (lin g i (p_sample r)) (sum_lin g i srcs - sum_lin g i bases).
+
+(* -normalize: the source is scaled so that its total equals the base total (within half a unit
+   per sample, because every value is rounded) *)
+Definition full_statement_normalize_total : Prop :=
+  forall p pb p' i r,
+    normalize keep_written p pb = Ok p' -> wf_profile p ->
+    let n := List.length (p_sampletype p) in
+    let S := lin (fun _ => true) i (p_sample p) in
+    let B := lin (fun _ => true) i (p_sample pb) in
+    nth_error (norm_ratios (col_sums n (p_sample pb)) (col_sums n (p_sample p))) i = Some r ->
+    is_one r = false -> S <> 0 -> in_i64 S = true -> in_i64 B = true ->
+    2 * Z.abs (lin (fun _ => true) i (p_sample p') - B) <= Z.of_nat (List.length (p_sample p)).
+
+(* -diff_base: the percentage base is the total of the (merged) base alone *)
+Definition full_statement_diff_base_total : Prop :=
+  forall p pb r i,
+    merge [p; scale_all keep_written (-1) (set_base_label pb)] = Ok r ->
+    wf_profile p -> wf_profile pb ->
+    (forall s, In s (p_sample p) -> is_base_sample s = false) ->
+    (forall s, In s (p_sample pb) -> existsb (fun kv => String.eqb (fst kv) base_key) (s_label s) = false) ->
+    (forall s v, In s (p_sample pb) -> In v (s_val s) -> - two63 < v < two63) ->
+    0 < compute_total i (merge_samples (p_sample pb)) ->
+    compute_total i (p_sample r) = compute_total i (merge_samples (p_sample pb)).
 
 (* -- non-vacuity -- *)
 Example flat_selector_respects_key : forall p e, respects_key (flat_g p e).
